@@ -14,7 +14,9 @@ RULE = ('batches of int64 values / integer texts / integer lists / float texts /
         'values 0, +-(10^k + d) for k <= 18, d in -2..2, the int64 extremes, the double-rounding and log10 '
         'carry thresholds; batches mixing widths 1..19 and signs; for batches of <= 4 rows every ordered '
         'sub-batch is converted separately (row independence); float texts with 1..17 significant digits, '
-        'optional sign, fraction, exponent -300..300. non-trivial = a row of width >= 2, a signed row, a batch '
+        'optional sign, fraction, exponent -300..300; buffers with integer fields at any offset (a short field at offset 0 '
+        'before a 19-digit field) through move_intervals_to_digit_array and as the first column of a file; every output of '
+        'a row must be identical across all sub-batches it was converted in. non-trivial = a row of width >= 2, a signed row, a batch '
         'with rows of different width, or a float text with a fraction or an exponent')
 EXHAUSTIVE = {'quick': False, 'thorough': False}
 TIE = ('translator+correspondence: translate/gen_c18.py regenerates 22 arithmetic kernels of strops.py / file_buffers.py into Gen/C18.v, '
@@ -22,20 +24,30 @@ TIE = ('translator+correspondence: translate/gen_c18.py regenerates 22 arithmeti
        'correspondence (power-index array, str_to_int ragged and digit-matrix variants, ints_to_strings, '
        'int_lists_to_strings, list-column parser, exact-rational float parser evaluated in Coq on the same batches)')
 ASSUMPTIONS = ['int64 arithmetic of NumPy is arithmetic modulo 2^64 (wrap64 in the model)',
-               'np.log10 on the values next to 10^15..10^18 behaves as a correctly rounded log10 of the correctly '
-               'rounded int64->double conversion (table log10_carry in Model/C18.v; checked by the correspondence on '
-               'both sides of every threshold); only the pinned variant of the model depends on it',
-               'FLOATS ARE A TEST, NOT A PROOF: the double-precision evaluation order of str_to_float is not modelled; '
-               'the implementation is compared in Coq, per case, with the exact rational the text denotes and must be '
-               'within 4 ulp; format-then-parse identity is compared bit for bit per case',
-               'float_to_strings is Python repr (shortest round-trip text); it is not modelled, its output is checked '
-               'per case to denote the double to within half an ulp']
-PARTIAL = ['C18_float_rational_partial: the float parser is proved to compute the exact rational denoted by the text; '
-           'the rounding error of its double-precision evaluation is tested (<= 4 ulp), not proved',
-           'C18_lists_split_partial: the list-column parser is proved for columns whose every row holds >= 1 number; '
-           'columns containing empty lists are tested by the correspondence (repaired parser, /repo 8a5819c)',
-           'C18_format_canonical is proved for the repaired width function (notes/C18.fix-1.diff); for the pinned '
-           'code it is refuted (C18_format_pinned_refuted) and proved below 10^15-2 (C18_format_pinned_partial)']
+               'FLOATS, modelled evaluation (E1-E3 in Model/C18.v), checked BIT FOR BIT per case, not provable from the Python '
+               'source: (E1) + * / on float64 are IEEE round-to-nearest-even; (E2) the row sum is np.add.reduceat = first '
+               'element + NumPy pairwise_sum of the rest (8 accumulators, rows <= 129 characters); (E3) 10.**k on an integer '
+               'array is a fixed platform function P (NOT correctly rounded with this NumPy/AVX512 build: 10.**-5 = '
+               '9.999999999999999e-06); P is observed in the same process and handed to the model, which checks every entry to '
+               'be within 1 ulp of 10^k and exact for 0 <= k <= 22',
+               'FLOAT ACCURACY IS A TEST, NOT A PROOF: each parsed double is compared in Coq with the exact rational the text '
+               'denotes: <= 1/2 ulp for plain decimals whose digits form an integer < 2^53 with <= 22 fraction digits (the class '
+               'of C18_float_short_decimal_partial), <= 4 ulp otherwise; format-then-parse identity is compared bit for bit '
+               '(known finding C18-float-roundtrip-ulps)',
+               'float_to_strings is Python repr (shortest round-trip text); it is not modelled, its output is checked per case '
+               'to denote the double to within half an ulp',
+               'the pinned variant of the integer formatter (kept for the refutation theorems only) assumes a correctly rounded '
+               'log10 (table log10_carry)']
+PARTIAL = ['floats: proved are the exact decomposition (C18_float_rational_partial, C18_float_decomposition_exact), that the '
+           'double of a row depends on that row and P only (C18_float_double_rowwise), exactness of the integer mantissa step '
+           'for digit strings < 2^53 (C18_float_mantissa_exact_partial) and the single-division form of short decimals '
+           '(C18_float_short_decimal_partial); NOT proved: an ulp bound for the double evaluation in general, that the modelled '
+           'division/rounding is the nearest double, float format->parse identity (false: known finding)',
+           'C18_format_pinned_partial / C18_lists_split_partial / C18_float_rational_pinned_partial are about the code before '
+           'the repairs 70440c1, 8a5819c, 37d8ec4 and are kept with their _refuted witnesses as history',
+           'link theorems model_ok -> spec_ok exist for format ints, parse ints, format lists, parse lists, parse floats '
+           '(tolerance part) and the digit matrix; for format floats there is none (float_to_strings is not modelled) and the '
+           'cross-run consistency clause of spec_ok is a direct observation']
 PER_FILE = 16
 I64MAX = 2 ** 63 - 1
 I64MIN = -2 ** 63
